@@ -180,6 +180,7 @@ func classSuperseded(ver int32) string {
 func gcExec(reclaim bool) func(x *XSpec, s *vsched.Sched, hist []Op, wantDump bool) (*Mismatch, string) {
 	return func(x *XSpec, s *vsched.Sched, hist []Op, wantDump bool) (*Mismatch, string) {
 		m := NewMachine(s, x.Cfg, nil)
+		m.AutoDrain = true
 		defer m.Exit()
 		md := NewModel(x.Cfg.CheckVHash)
 		restarted := false
